@@ -239,3 +239,25 @@ contract(F + "CorpusShufflingTool.corpus_shuffle#names",
                 ("after", "continuum = self.corpus_from_reference(annotators)",
                  "assert forall([(a, Real)], implies(Ann(continuum)[a], exists([(u, Unit)], Us(continuum)[a][u])))")],
          serves={"C19", "C14"})
+
+# the constructor establishes what the other contracts require of the tool: the reference annotator is the first annotator of the reference,
+# the tool's category set is a COPY of the reference's (C14) enlarged by the extra categories
+contract(F + "CorpusShufflingTool.__init__",
+         params={"self": CST(), "magnitude": RealT(), "reference_continuum": CONT(), "categories": OptT(ListOf(StrT()))},
+         modifies=["self"], macros=VIEW_MACROS,
+         requires=["Nkeys(reference_continuum) >= 1"],
+         binds={"self._reference_continuum": "reference_continuum"},
+         ensures=[cl("self.magnitude == magnitude", "C19", name="magnitude-stored"),
+                  cl("self._reference_annotator == Kseq(reference_continuum)[0] and Ann(reference_continuum)[self._reference_annotator]", "C19",
+                     name="the-reference-annotator-is-the-first-annotator-of-the-reference"),
+                  cl("fresh_obj(self._categories) and not same_obj(self._categories, reference_continuum._categories)", "C19 C14",
+                     name="the-tool's-category-set-is-its-own"),
+                  cl("forall([(l, Real)], members(self._categories)[l] == (Cat(reference_continuum)[l] or "
+                     "(not isnone(categories) and exists(k, 0, len(some(categories)), some(categories)[k] == l))))", "C19",
+                     name="categories-of-the-reference-plus-the-extra-ones")],
+         loops={"L0": dict(match="for category in categories", index="kC", modifies=["self._categories"],
+                           inv=["forall([(l, Real)], members(self._categories)[l] == (Cat(reference_continuum)[l] or "
+                                "exists(k, 0, kC, some(categories)[k] == l)))",
+                                "fresh_obj(self._categories) and not same_obj(self._categories, reference_continuum._categories)"])},
+         hooks=[("before", "@entry", "model_inv wfmap(reference_continuum)")],
+         serves={"C19", "C14"})
